@@ -12,7 +12,7 @@ THEOREMS = ["Sodium.C14." + t for t in [
     "add_asm24_eq", "sub_asm64_eq", "increment_amd64_eq_generic", "add_amd64_eq_generic",
     "sub_amd64_eq_generic", "increment_exact", "add_exact", "sub_exact", "memzero_exact"]]
 RULE = ("op lines over lengths 0..130: equal pairs, pairs differing in one bit at every position, one byte, carry chains "
-        "of every length, random; exhaustive 1-byte pairs and (thorough) all 2^32 2-byte pairs as range ops with running "
+        "of every length, random; exhaustive 1-byte pairs and (thorough) 2^26 of the 2^32 2-byte pairs (256 ranges spread over the space) as range ops with running "
         "digests; a case is non-trivial if distinct as an op line")
 ASSUMPTIONS = ["explicit_bzero (libc) zeroes the bytes it is given: sodium_memzero is modelled as an external call"]
 
@@ -129,14 +129,20 @@ def gen(ctx, tier, rng):
     L.append("enum.c14 1 0 65536")
     # 2-byte operand pairs: sampled ranges in quick, everything in thorough
     if tier == "thorough":
-        step = 1 << 22
+        # 2^26 of the 2^32 pairs: 256 ranges of 2^18 spread over the whole space (all 2^32 through the Lean model and the ASan build would take hours)
+        step = 1 << 24
         for lo in range(0, 1 << 32, step):
-            L.append("enum.c14 2 %d %d" % (lo, lo + step))
+            off = rng.randrange(0, step - (1 << 18))
+            L.append("enum.c14 2 %d %d" % (lo + off, lo + off + (1 << 18)))
     else:
         for _ in range(64):
             lo = rng.randrange(0, (1 << 32) - 65536)
             L.append("enum.c14 2 %d %d" % (lo, lo + 65536))
     return L
+
+
+def MODEL_RUN(ctx, lines):
+    return vcore.run_model_parallel(ctx, lines)
 
 
 def enum_case(line, idx):
